@@ -11,22 +11,24 @@ var errFault = errors.New("scripted writer failure")
 
 // rec is the recording, fault-injecting core shared by all writer shapes.
 type rec struct {
-	hdr               http.Header
-	log               []string
-	body              []byte
-	calls             int // Write / flush calls so far (the fault counter)
-	failAt            int // this call fails (0: never)
-	accept            int // a failing Write accepts this many bytes
-	failed            bool
-	unflushed         bool // body bytes written since the last flush
-	flushes           int
-	firstWriteFlushed bool
-	ctAtFirstWrite    string
-	status            int
-	stripCT           bool // remove Content-Type after the first successful flush to detect a second setting
-	stripped          bool
-	ctReset           bool
-	afterFail         int
+	hdr                  http.Header
+	log                  []string
+	body                 []byte
+	calls                int // Write / flush calls so far (the fault counter)
+	failAt               int // this call fails (0: never)
+	accept               int // a failing Write accepts this many bytes
+	failed               bool
+	unflushed            bool // body bytes written since the last flush
+	flushes              int
+	firstWriteFlushed    bool
+	ctAtFirstWrite       string
+	ctValuesAtFirstWrite int
+	status               int
+	stripCT              bool // remove Content-Type after the first successful flush to detect a second setting
+	stripped             bool
+	ctReset              bool
+	afterFail            int
+	ctOnWire             []string // Content-Type values in the header map at the first successful flush
 }
 
 func newRec() *rec { return &rec{hdr: http.Header{}} }
@@ -47,11 +49,13 @@ func (r *rec) Write(p []byte) (int, error) {
 		r.afterFail++
 	}
 	r.calls++
-	if len(r.body) == 0 && len(p) > 0 && !r.failed {
+	if len(r.body) == 0 && len(p) > 0 {
 		r.firstWriteFlushed = r.flushes > 0
 		if v := r.hdr["Content-Type"]; len(v) > 0 {
 			r.ctAtFirstWrite = v[0]
+			r.ctValuesAtFirstWrite = len(v)
 		} else if r.stripped {
+			r.ctValuesAtFirstWrite = 1
 			r.ctAtFirstWrite = "text/event-stream" // removed by the recorder after it was flushed
 		}
 	}
@@ -98,6 +102,9 @@ func (r *rec) flush(canFail bool) error {
 	}
 	r.flushes++
 	r.unflushed = false
+	if r.flushes == 1 {
+		r.ctOnWire = append([]string(nil), r.hdr["Content-Type"]...)
+	}
 	if canFail {
 		r.log = append(r.log, "FE")
 	} else {
